@@ -39,11 +39,12 @@ type site struct {
 }
 
 type instr struct {
-	fset   *token.FileSet
-	sites  []site
-	fields []string
-	fidx   map[string]int
-	file   string
+	fset      *token.FileSet
+	sites     []site
+	fields    []string
+	fidx      map[string]int
+	file      string
+	yieldOnly bool // sub-packages: preemption points and the sync redirect, no access tracking
 }
 
 func (in *instr) fieldID(name string) int {
@@ -244,7 +245,7 @@ func (in *instr) instrumentList(ctx fnCtx, list []ast.Stmt) []ast.Stmt {
 		in.instrumentStmt(ctx, s)
 		if _, ok := s.(*ast.LabeledStmt); !ok {
 			out = append(out, call("Yield", intLit(in.newSite(s.Pos(), ctx.name))))
-			if ctx.recv != "" {
+			if ctx.recv != "" && !in.yieldOnly {
 				var acc []access
 				for _, part := range headerParts(s) {
 					if part == nil || isNilNode(part) {
@@ -369,6 +370,9 @@ func (in *instr) file2(path string) ([]byte, error) {
 		return nil, err
 	}
 	in.file = filepath.Base(path)
+	if in.yieldOnly {
+		in.file = filepath.Base(filepath.Dir(path)) + "/" + filepath.Base(path)
+	}
 	// redirect import "sync"; add the verifrt import
 	for _, imp := range f.Imports {
 		if imp.Path.Value == `"sync"` {
@@ -437,34 +441,45 @@ func main() {
 		os.Exit(2)
 	}
 	in := &instr{fset: token.NewFileSet(), fidx: map[string]int{}}
-	ents, err := os.ReadDir(*repo)
-	if err != nil {
-		fmt.Fprintln(os.Stderr, err)
-		os.Exit(2)
-	}
-	var names []string
-	for _, e := range ents {
-		n := e.Name()
-		if e.IsDir() || !strings.HasSuffix(n, ".go") || strings.HasSuffix(n, "_test.go") {
+	replace := map[string]string{}
+	nfiles := 0
+	// the root package gets access tracking (C07's happens-before check); the codec packages get
+	// preemption points only (the interleaved-instances worlds compare results, not accesses)
+	for _, sub := range []string{"", "codecs", "codecs/vp9", "codecs/av1/obu", "codecs/av1/frame", "pkg/obu", "pkg/frame"} {
+		dir := filepath.Join(*repo, sub)
+		ents, err := os.ReadDir(dir)
+		if err != nil {
+			if sub == "" {
+				fmt.Fprintln(os.Stderr, err)
+				os.Exit(2)
+			}
 			continue
 		}
-		names = append(names, n)
-	}
-	sort.Strings(names)
-	replace := map[string]string{}
-	for _, n := range names {
-		src := filepath.Join(*repo, n)
-		b, err := in.file2(src)
-		if err != nil {
-			fmt.Fprintln(os.Stderr, "verifinstr:", err)
-			os.Exit(2)
+		in.yieldOnly = sub != ""
+		var names []string
+		for _, e := range ents {
+			n := e.Name()
+			if e.IsDir() || !strings.HasSuffix(n, ".go") || strings.HasSuffix(n, "_test.go") {
+				continue
+			}
+			names = append(names, n)
 		}
-		dst := filepath.Join(*out, n)
-		if err := os.WriteFile(dst, b, 0o644); err != nil {
-			fmt.Fprintln(os.Stderr, err)
-			os.Exit(2)
+		sort.Strings(names)
+		for _, n := range names {
+			src := filepath.Join(dir, n)
+			b, err := in.file2(src)
+			if err != nil {
+				fmt.Fprintln(os.Stderr, "verifinstr:", err)
+				os.Exit(2)
+			}
+			dst := filepath.Join(*out, strings.ReplaceAll("root/"+sub, "/", "_")+"_"+n)
+			if err := os.WriteFile(dst, b, 0o644); err != nil {
+				fmt.Fprintln(os.Stderr, err)
+				os.Exit(2)
+			}
+			replace[src] = dst
+			nfiles++
 		}
-		replace[src] = dst
 	}
 	// the runtime package, added to the module through the overlay
 	rt := filepath.Join(*out, "verifrt.go")
@@ -496,7 +511,7 @@ func main() {
 		fmt.Fprintln(os.Stderr, err)
 		os.Exit(2)
 	}
-	fmt.Printf("verifinstr: %d files, %d yield sites, %d receiver fields\n", len(names), len(in.sites), len(in.fields))
+	fmt.Printf("verifinstr: %d files, %d yield sites, %d receiver fields\n", nfiles, len(in.sites), len(in.fields))
 }
 
 const runtimeSrc = `// Package verifrt is added to github.com/pion/rtp through go build -overlay by the
@@ -630,12 +645,58 @@ type rlocker struct{ m *RWMutex }
 func (r rlocker) Lock()   { r.m.RLock() }
 func (r rlocker) Unlock() { r.m.RUnlock() }
 
+// Once replaces sync.Once: built on the scheduled Mutex, so that a simulated thread that is
+// preempted inside f does not leave another one blocked on a real lock.
+type Once struct {
+	m    Mutex
+	done bool
+}
+
+func (o *Once) Do(f func()) {
+	o.m.Lock()
+	defer o.m.Unlock()
+	if !o.done {
+		defer func() { o.done = true }()
+		f()
+	}
+}
+
+// Pool replaces sync.Pool by a deterministic LIFO free list (the real one hands out
+// per-P caches, which would make a replay depend on the Go scheduler).
+type Pool struct {
+	New   func() any
+	mu    sync.Mutex
+	items []any
+}
+
+func (p *Pool) Get() any {
+	p.mu.Lock()
+	if n := len(p.items); n > 0 {
+		x := p.items[n-1]
+		p.items = p.items[:n-1]
+		p.mu.Unlock()
+		return x
+	}
+	p.mu.Unlock()
+	if p.New != nil {
+		return p.New()
+	}
+	return nil
+}
+
+func (p *Pool) Put(x any) {
+	if x == nil {
+		return
+	}
+	p.mu.Lock()
+	p.items = append(p.items, x)
+	p.mu.Unlock()
+}
+
 // Everything else of package sync is the real thing.
 type (
 	Locker    = sync.Locker
-	Once      = sync.Once
 	WaitGroup = sync.WaitGroup
-	Pool      = sync.Pool
 	Map       = sync.Map
 	Cond      = sync.Cond
 )
@@ -643,9 +704,19 @@ type (
 // NewCond is sync.NewCond.
 func NewCond(l Locker) *Cond { return sync.NewCond(l) }
 
-// OnceFunc is sync.OnceFunc.
-func OnceFunc(f func()) func() { return sync.OnceFunc(f) }
+// OnceFunc mirrors sync.OnceFunc on the scheduled Once.
+func OnceFunc(f func()) func() {
+	var o Once
+	return func() { o.Do(f) }
+}
 
-// OnceValue is sync.OnceValue.
-func OnceValue[T any](f func() T) func() T { return sync.OnceValue(f) }
+// OnceValue mirrors sync.OnceValue on the scheduled Once.
+func OnceValue[T any](f func() T) func() T {
+	var o Once
+	var v T
+	return func() T {
+		o.Do(func() { v = f() })
+		return v
+	}
+}
 `
